@@ -79,6 +79,19 @@ impl EpClass {
     fn tcp_only(self) -> bool {
         matches!(self, EpClass::Summary | EpClass::Certs | EpClass::Ocsp)
     }
+    /// Which time-to-live field(s) of `CacheConfig` (0 = ribbit_ttl "TTL for Ribbit/TACT responses", "version info";
+    /// 1 = cdn_ttl "TTL for CDN content"; 2 = config_ttl "TTL for configuration files") can be meant for an answer of
+    /// this class, going by the documentation of the fields and of the protocol only. versions and bgdl answers are
+    /// version documents of the version service ("bgdl: BPSV background download (same as versions)"): ribbit_ttl.
+    /// A cdns answer is a Ribbit/TACT response about CDNs: ribbit_ttl or cdn_ttl, left open. summary / certs / ocsp
+    /// are Ribbit responses that no field names: ribbit_ttl or the general config_ttl, left open.
+    fn ttl_fields(self) -> &'static [usize] {
+        match self {
+            EpClass::Versions | EpClass::Bgdl => &[0],
+            EpClass::Cdns => &[0, 1],
+            EpClass::Summary | EpClass::Certs | EpClass::Ocsp => &[0, 2],
+        }
+    }
     fn name(self) -> &'static str {
         match self {
             EpClass::Versions => "versions",
@@ -1043,6 +1056,11 @@ fn http_body(beh: &HttpBeh, class: EpClass, slot: Slot, uniq: u64, generation: u
 }
 
 async fn build_rig(sc: &Scenario, ttl: Duration, cache_dir: Option<PathBuf>) -> Result<Rig, String> {
+    build_rig_ttls(sc, [ttl, ttl, ttl], cache_dir).await
+}
+
+/// `ttls` = the three time-to-live fields of `CacheConfig` in the order ribbit_ttl, cdn_ttl, config_ttl
+async fn build_rig_ttls(sc: &Scenario, ttls: [Duration; 3], cache_dir: Option<PathBuf>) -> Result<Rig, String> {
     let log = Log::new();
     let hb = http_body(&sc.https, sc.class, Slot::Https, sc.uniq, 0, sc.rows);
     let pb = http_body(&sc.http, sc.class, Slot::Http, sc.uniq, 0, sc.rows);
@@ -1071,7 +1089,7 @@ async fn build_rig(sc: &Scenario, ttl: Duration, cache_dir: Option<PathBuf>) -> 
         tact_https_url: if sc.permits(Slot::Https) { format!("http://127.0.0.1:{}", m0.port) } else { String::new() },
         tact_http_url: if sc.permits(Slot::Http) { format!("http://127.0.0.1:{}", m1.port) } else { String::new() },
         ribbit_url: if sc.opt.bare_ribbit { format!("127.0.0.1:{}", m2.port) } else { format!("tcp://127.0.0.1:{}", m2.port) },
-        cache_config: CacheConfig { cache_dir, ribbit_ttl: ttl, cdn_ttl: ttl, config_ttl: ttl, ..CacheConfig::default() },
+        cache_config: CacheConfig { cache_dir, ribbit_ttl: ttls[0], cdn_ttl: ttls[1], config_ttl: ttls[2], ..CacheConfig::default() },
         ..ClientConfig::default()
     };
     let tcp_port = m2.port;
@@ -1658,6 +1676,10 @@ struct CacheObs {
     steps: Vec<CacheStep>,
     proj_g0: String,
     proj_g1: String,
+    /// appended to the before/after-expiry signatures (histories whose distinguishing condition is the configuration)
+    sig_suffix: String,
+    /// [ribbit_ttl, cdn_ttl, config_ttl] in ms when the history did not use `TTL` for all three
+    ttls_ms: Option<[u64; 3]>,
 }
 
 const TTL: Duration = Duration::from_millis(450);
@@ -1766,7 +1788,7 @@ async fn run_cache_scenario(mode: CacheMode, via: Via, class: EpClass, uniq: u64
     }
     drop(c1);
     drop(rig);
-    Ok(CacheObs { steps, proj_g0, proj_g1 })
+    Ok(CacheObs { steps, proj_g0, proj_g1, sig_suffix: String::new(), ttls_ms: None })
 }
 
 const TTL_LONG: Duration = Duration::from_millis(1500);
@@ -1848,7 +1870,96 @@ async fn run_sliding_scenario(mode: CacheMode, via: Via, class: EpClass, uniq: u
     steps.push(CacheStep { name: "query-after-original-ttl-following-a-hit", client: "same-client", phase, result: r2, new_requests: rig.log.len() - before, want_generation: 1 });
     drop(c1);
     drop(rig);
-    Ok(CacheObs { steps, proj_g0, proj_g1 })
+    Ok(CacheObs { steps, proj_g0, proj_g1, sig_suffix: String::new(), ttls_ms: None })
+}
+
+const TTL_FAR: Duration = Duration::from_secs(600);
+
+/// Per-class time-to-live history: the three TTL fields of the cache configuration differ (each is either `TTL` or
+/// `TTL_FAR`, `short[i]` says which). Cold query, the service switches to generation 1, a second query more than
+/// 3 x `TTL` (and far less than `TTL_FAR` / 3) after the first. The answer's own time-to-live is the field the
+/// configuration documents for its class (`EpClass::ttl_fields`): when every admissible field is short the second
+/// query must go to the network; when every admissible field is far it must be served from the cache without
+/// traffic; when the admissible fields differ the statement leaves the outcome open (recorded, not judged).
+async fn run_class_ttl_scenario(mode: CacheMode, via: Via, class: EpClass, short: [bool; 3], uniq: u64) -> Result<CacheObs, String> {
+    let (https, http, tcp) = match via {
+        Via::Https => (HttpBeh::Valid(Shape::Plain), HttpBeh::Valid(Shape::Plain), TcpBeh::ValidV2(Shape::Plain)),
+        Via::HttpAfter503 => (HttpBeh::Status(503, None), HttpBeh::Valid(Shape::InteriorBlank), TcpBeh::ValidV2(Shape::Plain)),
+        Via::TcpV1AfterRefused => (HttpBeh::Refused, HttpBeh::Refused, TcpBeh::ValidV1(true, Shape::Plain)),
+        Via::TcpV2 => (HttpBeh::Refused, HttpBeh::Refused, TcpBeh::ValidV2(Shape::Plain)),
+    };
+    let sc = Scenario { class, https, http, tcp, splits: vec![], uniq, disk: mode != CacheMode::Memory, rows: 3, opt: Opt::default() };
+    let dir = if sc.disk { Some(tempfile::tempdir().map_err(|e| format!("harness: tempdir: {e}"))?) } else { None };
+    let ttls = [0, 1, 2].map(|i| if short[i] { TTL } else { TTL_FAR });
+    let rig = build_rig_ttls(&sc, ttls, dir.as_ref().map(|d| d.path().to_path_buf())).await?;
+    let answering = if class.tcp_only() {
+        Slot::Tcp
+    } else {
+        match via {
+            Via::Https => Slot::Https,
+            Via::HttpAfter503 => Slot::Http,
+            _ => Slot::Tcp,
+        }
+    };
+    let doc = |generation: u32| -> (Vec<u8>, Option<String>) {
+        match answering {
+            Slot::Https => {
+                let b = http_body(&sc.https, class, Slot::Https, uniq, generation, sc.rows);
+                let p = ref_http(&b);
+                (b, p)
+            }
+            Slot::Http => {
+                let b = http_body(&sc.http, class, Slot::Http, uniq, generation, sc.rows);
+                let p = ref_http(&b);
+                (b, p)
+            }
+            Slot::Tcp => {
+                let b = tcp_payload(&sc.tcp, class, uniq, generation, sc.rows);
+                let p = ref_tcp(&b);
+                (b, p)
+            }
+        }
+    };
+    let (_, p0) = doc(0);
+    let (b1, p1) = doc(1);
+    let (proj_g0, proj_g1) = (p0.ok_or("harness: generation 0 does not parse")?, p1.ok_or("harness: generation 1 does not parse")?);
+    if proj_g0 == proj_g1 {
+        return Err("harness: generations are indistinguishable".into());
+    }
+    let ep = class.endpoint();
+    let mut steps: Vec<CacheStep> = Vec::new();
+    let c1 = new_client(&rig.cfg)?;
+    let t0s = Instant::now();
+    let before = rig.log.len();
+    let r0 = do_query(&c1, ep).await;
+    let t0e = Instant::now();
+    steps.push(CacheStep { name: "cold-query", client: "same-client", phase: "cold", result: r0, new_requests: rig.log.len() - before, want_generation: 0 });
+    match answering {
+        Slot::Https => rig.https_script.lock().map_err(|_| "lock")?.body = b1,
+        Slot::Http => rig.http_script.lock().map_err(|_| "lock")?.body = b1,
+        Slot::Tcp => rig.tcp_script.lock().map_err(|_| "lock")?.payload = b1,
+    }
+    tokio::time::sleep(TTL * 3 + Duration::from_millis(50)).await;
+    if Instant::now().duration_since(t0e) < TTL * 3 {
+        return Err("harness: sleep returned early".into());
+    }
+    let before = rig.log.len();
+    let r = do_query(&c1, ep).await;
+    let end = Instant::now();
+    let own = class.ttl_fields();
+    let (phase, want_generation) = if own.iter().all(|&i| short[i]) {
+        // started more than 3 short TTLs after the answer was stored
+        ("after", 1)
+    } else if own.iter().all(|&i| !short[i]) {
+        // surely inside the far TTL: the answer was stored no earlier than t0s
+        (if end.duration_since(t0s) < TTL_FAR / 3 { "within" } else { "unjudged" }, 0)
+    } else {
+        ("open", 0)
+    };
+    steps.push(CacheStep { name: "query-after-the-short-ttl-and-inside-the-far-ttl", client: "same-client", phase, result: r, new_requests: rig.log.len() - before, want_generation });
+    drop(c1);
+    drop(rig);
+    Ok(CacheObs { steps, proj_g0, proj_g1, sig_suffix: format!("|ttl-fields-differ|{}", class.name()), ttls_ms: Some(ttls.map(|t| t.as_millis() as u64)) })
 }
 
 /// Outage-after-expiry history: a good answer is fetched and cached; then EVERY endpoint starts failing transiently
@@ -1910,7 +2021,7 @@ async fn run_outage_scenario(mode: CacheMode, via: Via, class: EpClass, uniq: u6
     steps.push(CacheStep { name: "query-after-expiry-during-an-outage-of-every-endpoint", client: "same-client", phase: "after-outage", result: r, new_requests: rig.log.len() - before, want_generation: 0 });
     drop(c1);
     drop(rig);
-    Ok(CacheObs { steps, proj_g0: proj_g0.clone(), proj_g1: proj_g0 })
+    Ok(CacheObs { steps, proj_g0: proj_g0.clone(), proj_g1: proj_g0, sig_suffix: String::new(), ttls_ms: None })
 }
 
 /// returns true when every step could be judged
@@ -1918,13 +2029,14 @@ fn judge_cache(ctx: &Ctx, mode: CacheMode, via: Via, class: EpClass, obs: &Cache
     let mut all_judged = true;
     let detail = |step: &CacheStep| {
         json!({
-            "scenario": {"kind": "cache", "mode": format!("{mode:?}"), "via": format!("{via:?}"), "class": class.name(), "ttl_ms": TTL.as_millis() as u64},
+            "scenario": {"kind": "cache", "mode": format!("{mode:?}"), "via": format!("{via:?}"), "class": class.name(), "ttl_ms": TTL.as_millis() as u64, "ribbit_cdn_config_ttl_ms": obs.ttls_ms},
             "failing_step": step.name,
             "history": obs.steps.iter().map(|s| json!({"step": s.name, "client": s.client, "phase": s.phase, "new_requests": s.new_requests, "result": s.result.short(), "wanted_generation": s.want_generation})).collect::<Vec<_>>(),
             "replay": "re-run the tier with the same seed (real-time history)",
         })
     };
     let m = mode.name();
+    let sfx = obs.sig_suffix.as_str();
     for s in &obs.steps {
         let want = if s.want_generation == 0 { &obs.proj_g0 } else { &obs.proj_g1 };
         if let QR::Panic(msg) = &s.result {
@@ -1940,7 +2052,7 @@ fn judge_cache(ctx: &Ctx, mode: CacheMode, via: Via, class: EpClass, obs: &Cache
             "within" => {
                 ctx.obs(&format!("cache.judged.before-expiry.{m}.{}", s.client), 1);
                 if s.new_requests > 0 {
-                    ctx.violation(&format!("C13|cache|network-traffic-for-unexpired-answer|{m}|{}", s.client), "a query less than TTL/3 after the first one caused network traffic", detail(s));
+                    ctx.violation(&format!("C13|cache|network-traffic-for-unexpired-answer|{m}|{}{sfx}", s.client), "a query less than a third of the answer's time-to-live after the first one caused network traffic", detail(s));
                 } else if s.result != QR::Ok(want.clone()) {
                     ctx.violation(&format!("C13|cache|served-answer-differs-from-original|{m}|{}", s.client), "the answer served from the cache differs from the original answer", detail(s));
                 }
@@ -1949,7 +2061,7 @@ fn judge_cache(ctx: &Ctx, mode: CacheMode, via: Via, class: EpClass, obs: &Cache
                 ctx.obs(&format!("cache.judged.after-expiry.{m}.{}", s.client), 1);
                 let stale = s.result == QR::Ok(obs.proj_g0.clone());
                 if stale && s.new_requests == 0 {
-                    ctx.violation(&format!("C13|cache|answer-served-after-ttl-ended|{m}|{}", s.client), "an answer was served from the cache (no network traffic) more than 3 TTLs after it was stored", detail(s));
+                    ctx.violation(&format!("C13|cache|answer-served-after-ttl-ended|{m}|{}{sfx}", s.client), "an answer was served from the cache (no network traffic) more than 3 TTLs after it was stored", detail(s));
                 } else if s.result != QR::Ok(want.clone()) {
                     ctx.violation(&format!("C13|cache|query-after-expiry-did-not-return-the-fresh-answer|{m}|{}", s.client), "after expiry the query did not return the answer now served", detail(s));
                 }
@@ -1961,6 +2073,20 @@ fn judge_cache(ctx: &Ctx, mode: CacheMode, via: Via, class: EpClass, obs: &Cache
                     ctx.violation(&format!("C13|cache|answer-served-after-ttl-ended|{m}|{}|while-every-endpoint-fails", s.client), "more than 3 TTLs after it was stored, and while every endpoint failed transiently, the expired answer was returned as a success", detail(s));
                 } else if let QR::Ok(_) = &s.result {
                     ctx.violation(&format!("C13|fallback|success-although-every-permitted-protocol-failed|{m}"), "the query succeeded although no endpoint gave a well-formed answer and nothing unexpired was cached", detail(s));
+                }
+            }
+            "open" => {
+                // the documentation admits more than one TTL field for this class and they differ here: either outcome is fine
+                let outcome = if s.new_requests == 0 && s.result == QR::Ok(obs.proj_g0.clone()) {
+                    "served-from-cache"
+                } else if s.new_requests > 0 && s.result == QR::Ok(obs.proj_g1.clone()) {
+                    "refetched"
+                } else {
+                    "other"
+                };
+                ctx.obs(&format!("cache.class_ttl.open(not judged).{}.{outcome}", class.name()), 1);
+                if outcome == "other" {
+                    ctx.violation(&format!("C13|cache|query-is-neither-the-cached-nor-the-fresh-answer|{m}|{}{sfx}", s.client), "a repeated query returned neither the cached answer without traffic nor the answer now served", detail(s));
                 }
             }
             "after-hit" => {
@@ -2197,7 +2323,7 @@ fn main() {
     // the configuration-from-environment case needs its ports in the environment before any thread exists
     let mut env_rig = ext::EnvRig::prepare();
     let ctx = Arc::new(Ctx::init("C13", "fault_enumeration"));
-    ctx.set_rule("a case is one query history against three loopback mocks: (endpoint class, behaviour of HTTPS slot, HTTP slot, Ribbit TCP, TCP segment boundaries, cache kind); quick enumerates every assignment of behaviour families (7x7x6) x {versions,cdns,bgdl} with seeded variants, thorough every assignment of behaviour variants; plus TCP-only classes, segmentation runs (parse of split response == parse of unsplit bytes) and cache-expiry histories (TTL 450 ms, judged only < TTL/3 or > 3 TTL); non-trivial = at least one endpoint fails / a segmentation with >= 2 segments / a cache history; distinct by hash of the scenario description");
+    ctx.set_rule("a case is one query history against three loopback mocks: (endpoint class, behaviour of HTTPS slot, HTTP slot, Ribbit TCP, TCP segment boundaries, cache kind); quick enumerates every assignment of behaviour families (7x7x6) x {versions,cdns,bgdl} with seeded variants, thorough every assignment of behaviour variants; plus TCP-only classes, segmentation runs (parse of split response == parse of unsplit bytes) and cache-expiry histories (TTL 450 ms, judged only < TTL/3 or > 3 TTL; also with the three TTL fields of the configuration set differently, each endpoint class judged against its own field); non-trivial = at least one endpoint fails / a segmentation with >= 2 segments / a cache history; distinct by hash of the scenario description");
     ctx.assume("the mocks' request logs are complete: every connection that sent at least one byte is logged with a per-scenario sequence number before any response byte is written");
     ctx.assume("well-formedness of an answer is judged by the library's own pure parsers (BpsvDocument::parse, is_v1_mime_response, parse_v1_mime_to_bpsv) applied to the unsplit bytes; the property under test is the chain, the transport loop and the cache");
     ctx.assume("TLS is out of scope: the HTTPS slot is served over plain HTTP on loopback (TactClient::new ignores its use_https flag)");
@@ -2342,6 +2468,65 @@ fn main() {
                     Ok((_, _, _, Ok(Err(e)))) => ctx.inconclusive(&format!("cache history: {e}")),
                     Ok((_, _, _, Err(_))) => ctx.inconclusive("cache history: watchdog (60 s)"),
                     Err(_) => ctx.inconclusive("cache history task failed"),
+                }
+            }
+            pending = again;
+        }
+    }
+
+    // ---- per-class time-to-live histories: every assignment of {short, far} to (ribbit_ttl, cdn_ttl, config_ttl) in
+    //      which the fields differ x every endpoint class; each class is judged against the field(s) documented for it
+    {
+        let mut pending: Vec<(CacheMode, Via, EpClass, [bool; 3])> = Vec::new();
+        for bits in 1u8..7 {
+            let short = [bits & 1 != 0, bits & 2 != 0, bits & 4 != 0];
+            for (ci, class) in ALL_CLASSES.into_iter().enumerate() {
+                let k = bits as usize + ci;
+                // bit 2 separates the two assignments that put a class's own field and a given other field on opposite
+                // sides, so every class that is judged more than once each way meets both cache kinds each way
+                let mode = if ((bits >> 2) as usize + ci) % 2 == 0 { CacheMode::Memory } else { CacheMode::DiskSameClient };
+                let via = if class.tcp_only() {
+                    if k % 4 < 2 { Via::TcpV2 } else { Via::TcpV1AfterRefused }
+                } else {
+                    [Via::Https, Via::HttpAfter503, Via::TcpV2, Via::TcpV1AfterRefused][(k / 2) % 4]
+                };
+                pending.push((mode, via, class, short));
+            }
+        }
+        for round in 0..3 {
+            if pending.is_empty() {
+                break;
+            }
+            let handles: Vec<_> = pending
+                .iter()
+                .map(|&(mode, via, class, short)| {
+                    uniq += 1;
+                    let u = uniq;
+                    rt.spawn(async move { (mode, via, class, short, tokio::time::timeout(Duration::from_secs(120), run_class_ttl_scenario(mode, via, class, short, u)).await) })
+                })
+                .collect();
+            let mut again = Vec::new();
+            for h in handles {
+                match rt.block_on(h) {
+                    Ok((mode, via, class, short, Ok(Ok(obs)))) => {
+                        let complete = obs.steps.iter().all(|s| s.phase != "unjudged");
+                        if !complete && round < 2 {
+                            again.push((mode, via, class, short));
+                            ctx.obs("cache.history_repeated(too close to boundary)", 1);
+                            continue;
+                        }
+                        ctx.eval_nontrivial(mix64(fnv64(b"cache-class-ttl"), fnv64(format!("{mode:?}{via:?}{class:?}{short:?}").as_bytes())));
+                        ctx.obs(&format!("cache.class_ttl_histories.{}", mode.name()), 1);
+                        match obs.steps.last().map(|s| s.phase) {
+                            Some("after") => ctx.obs(&format!("cache.class_ttl.judged.{}.own-ttl-short", class.name()), 1),
+                            Some("within") => ctx.obs(&format!("cache.class_ttl.judged.{}.own-ttl-far", class.name()), 1),
+                            _ => {}
+                        }
+                        judge_cache(&ctx, mode, via, class, &obs);
+                    }
+                    Ok((_, _, _, _, Ok(Err(e)))) => ctx.inconclusive(&format!("per-class TTL history: {e}")),
+                    Ok((_, _, _, _, Err(_))) => ctx.inconclusive("per-class TTL history: watchdog (120 s)"),
+                    Err(_) => ctx.inconclusive("per-class TTL history task failed"),
                 }
             }
             pending = again;
@@ -2565,6 +2750,13 @@ fn main() {
     for k in ["cache.judged.before-expiry.memory.same-client", "cache.judged.after-expiry.memory.same-client", "cache.judged.before-expiry.disk.same-client", "cache.judged.after-expiry.disk.same-client", "cache.judged.before-expiry.disk.new-client", "cache.judged.after-expiry.disk.new-client"] {
         if ctx.get_obs(k) == 0 {
             ctx.inconclusive(&format!("cache phase never judged: {k}"));
+        }
+    }
+    for class in ALL_CLASSES {
+        for k in ["own-ttl-short", "own-ttl-far"] {
+            if ctx.get_obs(&format!("cache.class_ttl.judged.{}.{k}", class.name())) == 0 {
+                ctx.inconclusive(&format!("endpoint class {} was never judged against its own time-to-live with the other TTL fields set differently ({k})", class.name()));
+            }
         }
     }
     for k in [
